@@ -360,8 +360,14 @@ func (c *Check) Finish() bool {
 		return c.violations == 0 && len(c.inconclusive) == 0
 	}
 	c.finished = true
+	replaying := OnlyCase() >= 0
 	if c.evals < 1 {
 		c.inconclusive = append(c.inconclusive, "no case was evaluated")
+	}
+	if replaying {
+		// a replay runs one case: the floors of a full run do not apply
+		c.minDistinct = 0
+		c.minEvents = map[string]int64{}
 	}
 	if int64(len(c.sigs))+c.distinctN < int64(c.minDistinct) {
 		c.inconclusive = append(c.inconclusive, fmt.Sprintf("only %d distinct non-trivial cases (floor %d)", int64(len(c.sigs))+c.distinctN, c.minDistinct))
